@@ -146,13 +146,24 @@ def build():
         o.attrs["hasattr"] = {"peek": bool(peek)}
         return o
 
+    def _head(interp, n, exact):
+        # FIRST = the bytes of the stream from its current position; read(n) returns its first min(n, len) bytes, peek(n) at least those
+        ctx = interp.ctx
+        first = ctx.ghost["FIRST"].term
+        nn = ops.as_int_term(n)
+        m = z3.Int(ctx.fresh_name("got"))
+        lo = z3.If(nn < z3.Length(first), nn, z3.Length(first))
+        ctx.assume(z3.And(m >= lo, m <= z3.Length(first)) if not exact else m == lo)
+        ctx.assume(nn >= 0)
+        return Sym(BYTES, z3.SubSeq(first, 0, m))
+
     def peek(interp, recv, args, kwargs):
         interp.ctx.events.append(("peek", args[0]))
-        return interp.ctx.ghost["FIRST"]
+        return _head(interp, args[0], False)
 
     def read(interp, recv, args, kwargs):
         interp.ctx.events.append(("read", args[0]))
-        return interp.ctx.ghost["FIRST"]
+        return _head(interp, args[0], True)
 
     p.models["srcfile.peek"] = peek
     p.models["srcfile.read"] = read
